@@ -1200,7 +1200,7 @@ func run(c *vf.Ctx) {
 		replay(c)
 		return
 	}
-	c.SetRule("one history = 2-16 goroutines released by a spin barrier, 4-12 operations each (<= 128 recorded operations) on 1-3 views (realms \"\", a, ab; plain / flushkv / debug wrapped) of one mapdb store, keys {\"\",a,b,ab}, every Set value unique, seeded Gosched jitter, GOMAXPROCS cycling through 2/4/16; call/return ticks from one atomic counter; a committed batch is one operation per written key with the Commit window. evaluations = recorded operations handed to porcupine. overlapping_pairs = pairs of operations of different goroutines whose [call,return] windows intersect; distinct_nontrivial = distinct observed schedules (hash of the tick-ordered operation list) in which at least one such pair contains a mutation")
+	c.SetRule("one history = 2-16 goroutines released by a spin barrier, 4-12 operations each (<= 128 recorded operations) on 1-3 views (realms \"\", a, ab; plain / flushkv / debug wrapped) of one mapdb store, keys {\"\",a,b,ab}, every Set value unique, seeded Gosched jitter, GOMAXPROCS cycling through 2/4/16; call/return ticks from one atomic counter; a committed batch is one operation per written key with the Commit window. evaluations = recorded operations handed to porcupine. overlapping_pairs = pairs of operations of different goroutines whose [call,return] windows intersect; distinct_nontrivial = distinct observed schedules (hash of the tick-ordered operation list) in which at least one such pair contains a mutation. Second family (no porcupine): large-operation rounds – one goroutine commits batches of 1/100/511/512/513/2000 mutations, DeletePrefix/Clear over 1000 keys and iterates over up to 2600 entries through its own views while 4 single-writer streams (1200 Set/Delete/Get each, unique values, own keys inside and outside the ranges the large operations touch) and 2 readers work through other view objects; every Get, every iterated entry or absence and the final state is judged per key: the value must come from a mutation invoked before the observation returned and not followed by another mutation of that key that completed before the observation began; unknown keys must not appear")
 	nPlain := c.Pick(20000, 500000)
 	nRace := c.Pick(3000, 60000)
 	var wg sync.WaitGroup
